@@ -7,7 +7,7 @@ def run(ctx):
     q = ctx.quick
     ctx.rule = ("MC: one publisher (creation and overwrite), 1..5 servers, k=2 N=3, a request may fail before it is executed or "
                 "after (answer lost), map-update queries may fail, all answer orders. TRACE: single-writer creations and overwrites "
-                "(SDMF and MDMF) on SimGrids of 1..10 servers with permanently failing servers, faults on any query or write and a "
+                "(SDMF and MDMF) on SimGrids of 1..12 servers with permanently failing servers, faults on any query or write and a "
                 "seeded random delivery order, plus concurrent writers with faults; claim vs acknowledged writes vs share versions "
                 "on disk are validated by TLC. Non-trivial = at least one injected fault.")
     ctx.assumptions += ["TLC and the CommunityModules", "faults: a call raises / the connection drops before the request is executed, or the "
